@@ -4,7 +4,7 @@ import os
 import time
 
 VERIF = os.path.dirname(os.path.dirname(os.path.abspath(__file__)))
-EVID = os.path.join(VERIF, "evidence")
+EVID = os.environ.get("CRRL_EVIDENCE_DIR") or os.path.join(VERIF, "evidence")
 REPLAY = os.path.join(EVID, "replay")
 KNOWN = os.path.join(VERIF, "known_findings.json")
 
